@@ -252,9 +252,92 @@ fn truncated(e: &mut EnumCtx, bytes: &[u8], cut: usize, follow: usize) {
     }
 }
 
+/// (e) immediates and operand values: every register-direct instruction with an 8-bit immediate
+/// (1-byte and 0F-escaped opcodes, with and without 66 / REX.W / REX.B) x all 256 immediates x
+/// 8 values in every general-purpose register x flags all clear / all set.
+fn imm8_value_sweep(e: &mut EnumCtx) {
+    let prefixes: [&[u8]; 5] = [&[], &[0x66], &[0x48], &[0x41], &[0x66, 0x41]];
+    let vals: [u64; 8] = [0, 1, 0x10, 0x80, 0xFF, 0x8000, 1 << 31, u64::MAX];
+    for pfx in prefixes {
+        for op in 0..512u32 {
+            let opb: Vec<u8> = if op < 256 { vec![op as u8] } else { vec![0x0F, (op - 256) as u8] };
+            // with a ModRM byte (register-direct) and without one
+            let shapes: Vec<Option<u8>> = (0xC0..=0xFFu8).map(Some).chain(std::iter::once(None)).collect();
+            for m in shapes {
+                let mut head: Vec<u8> = pfx.to_vec();
+                head.extend_from_slice(&opb);
+                if let Some(m) = m {
+                    head.push(m);
+                }
+                let mut probe = head.clone();
+                probe.push(0x05);
+                probe.extend_from_slice(&[0x90; 8]);
+                let ok = match crate::tmpl::decode_at(&probe, CODE_AT) {
+                    Some(d) => d.instr.len() == head.len() + 1 && d.co.immediate_size() == 1 && d.co.immediate_offset() == head.len() && !d.co.has_displacement(),
+                    None => false,
+                };
+                if !ok {
+                    continue;
+                }
+                for imm in 0..256u32 {
+                    if !e.next() {
+                        continue;
+                    }
+                    let mut code = head.clone();
+                    code.push(imm as u8);
+                    code.extend_from_slice(&[0x90; 4]);
+                    e.describe("imm8-values", &crate::common::hex(&code[..head.len() + 1]));
+                    let mut fp = crate::common::Fp::new();
+                    fp.bytes(&code);
+                    fp.u64(0x696d6d38);
+                    e.state(fp.0);
+                    let base = match Axecutor::new(&code, CODE_AT, CODE_AT) {
+                        Ok(mut a) => {
+                            a.mem_init_area(STK, vec![0x22; 0x100]).unwrap();
+                            a
+                        }
+                        Err(_) => continue,
+                    };
+                    let mut oc = crate::common::Fp::new();
+                    for v in vals {
+                        for fl in [0u64, 0x8D5] {
+                            let mut ax = base.clone();
+                            for k in 0..16 {
+                                ax.reg_write_64(crate::emu::GPR64[k], v).unwrap();
+                            }
+                            ax.reg_write_64(SR::RSP, STK + 0x80).unwrap();
+                            ax.verif_set_rflags(fl);
+                            let out = crate::emu::step(&mut ax);
+                            e.count("transitions", 1);
+                            e.count("imm8_value_steps", 1);
+                            oc.str(out.class());
+                            match &out {
+                                StepOut::Ok(_) => e.count("ok", 1),
+                                StepOut::Err(_) => e.count("err", 1),
+                                StepOut::Panic(p) => {
+                                    e.count("panic", 1);
+                                    let key = format!("step|panic@{}", p.tag());
+                                    e.finding(
+                                        &key,
+                                        || format!("step on [{}] with every register {v:#x} and flags {fl:#x} panicked at {}: {}", crate::common::hex(&code[..head.len() + 1]), p.loc, crate::emu::first_line(&p.msg)),
+                                        || json!({"bytes": crate::common::hex(&code), "every_gpr": format!("{v:#x}"), "flags": format!("{fl:#x}")}),
+                                    );
+                                }
+                            }
+                        }
+                    }
+                    fp.u64(oc.0);
+                    e.outcome(fp.0);
+                }
+            }
+        }
+    }
+}
+
 fn gen(thorough: bool) -> impl Fn(&mut EnumCtx) + Sync {
     move |e: &mut EnumCtx| {
         sys_sweep(e);
+        imm8_value_sweep(e);
         // (d) truncated code areas: every 1- and 2-byte prefix x 4 fillers x every cut 1..=14
         {
             let fillers: [[u8; 14]; 4] = [[0x00; 14], [0xFF; 14], [0x24, 0x25, 0x10, 0x20, 0x30, 0x40, 0x50, 0x60, 0x70, 0x80, 0x90, 0xA0, 0xB0, 0xC0], [0x90; 14]];
@@ -401,7 +484,7 @@ pub fn run(tier: Tier) -> i32 {
         run.findings.merge(f);
         run.cov("devlike_profile_run", summary);
     }
-    enum_evidence(&mut run, &out, "one case = a byte string used as code: (a) every 1- and 2-byte prefix x 4 fillers (thorough: every 3-byte prefix x 2 fillers), (b) legacy prefix menu x REX menu x every 1-byte and 0F-escaped opcode x every ModRM x SIB menu; each stepped in 6 (layout, register state) combinations (one of them with an execute-only code area): code only / code+data+stack with all registers pointing into mapped memory, code+data+stack with distinct filler and all flags set, and areas at both ends of the address space with all registers 0 / all registers 2^64-8, under catch_unwind, an allocation guard and a hang watchdog; FS/GS bases are part of the register state (0 / small / large enough to wrap); (c) the `syscall` instruction with the built-in brk/pipe/exit/arch_prctl handlers installed x 9 syscall numbers x (12 boundary values + the live pipe descriptors) x 12 x 12 argument values, on a fresh machine, on one where a pipe holding data and the heap exist, and on one where in addition the heap is the highest area below an area on the last page of the address space; (d) every 2-byte prefix x 4 fillers cut to every length 1..14 as the WHOLE code area (an instruction that runs past the end of the code), for two of the fillers also with another area directly behind the code (2 bytes executable / 16 bytes read-write / 16 bytes executable); states = distinct 8-byte code prefixes; distinct_nontrivial = distinct (first 8 bytes, outcome class and RIP of the 5 runs)");
+    enum_evidence(&mut run, &out, "one case = a byte string used as code: (a) every 1- and 2-byte prefix x 4 fillers (thorough: every 3-byte prefix x 2 fillers), (b) legacy prefix menu x REX menu x every 1-byte and 0F-escaped opcode x every ModRM x SIB menu; each stepped in 6 (layout, register state) combinations (one of them with an execute-only code area): code only / code+data+stack with all registers pointing into mapped memory, code+data+stack with distinct filler and all flags set, and areas at both ends of the address space with all registers 0 / all registers 2^64-8, under catch_unwind, an allocation guard and a hang watchdog; FS/GS bases are part of the register state (0 / small / large enough to wrap); (c) the `syscall` instruction with the built-in brk/pipe/exit/arch_prctl handlers installed x 9 syscall numbers x (12 boundary values + the live pipe descriptors) x 12 x 12 argument values, on a fresh machine, on one where a pipe holding data and the heap exist, and on one where in addition the heap is the highest area below an area on the last page of the address space; (d) every 2-byte prefix x 4 fillers cut to every length 1..14 as the WHOLE code area (an instruction that runs past the end of the code), for two of the fillers also with another area directly behind the code (2 bytes executable / 16 bytes read-write / 16 bytes executable); (e) every register-direct instruction with an 8-bit immediate (1-byte and 0F-escaped opcodes, plain / 66 / REX.W / REX.B) x all 256 immediates x 8 values in every general-purpose register x flags clear / set; states = distinct 8-byte code prefixes; distinct_nontrivial = distinct (first 8 bytes, outcome class and RIP of the 5 runs)");
     run.guard("cases", out.cases >= 1_000_000 || out.capped, format!("{} byte strings", out.cases));
     let okc = out.counters.get("ok").cloned().unwrap_or(0);
     let errc = out.counters.get("err").cloned().unwrap_or(0);
